@@ -109,7 +109,8 @@ def check_type(ctx, m, g, kind):
         dn = [p["name"] for p in f["generics"]["params"] if p["k"] == "type"]
         want = set(m.generics) - used
         if m.kind == "interface":
-            got = set(dn) - {"ContractT"}
+            from .c02 import contract_param
+            got = set(dn) - {contract_param(f)}
         else:
             got = set(dn)
         if got != want:
